@@ -62,6 +62,18 @@ theorem kindSpecific_enumNames {st : LState} {d : Definition} (h : validateKindS
     · simp at h1
     · rename_i hc; simpa using hc
 
+theorem kindSpecific_enumValueNames {st : LState} {d : Definition} (h : validateKindSpecific st d = .pass)
+    (hk : d.kind = .enum) : ∀ v ∈ d.enumValues, hasDunder v.name = false := by
+  unfold validateKindSpecific at h
+  simp only [hk] at h
+  split at h
+  · simp at h
+  · rw [each_eq_pass] at h
+    intro v hv
+    have := h v hv
+    simp only [andThen_eq_pass] at this
+    exact validateName_pass this.2.1
+
 theorem fieldPosition_ok {st : LState} {d : Definition} (D : DefOK st d) {f : FieldDef} (hf : f ∈ d.fields)
     {t : Definition} (ht : st.types.lookup f.type.name = some t) : Spec.fieldPosition d.kind t.kind = true := by
   obtain ⟨ho, hi⟩ := kindSpecific_fields D.kindSpecific hf ht
@@ -91,15 +103,12 @@ theorem setRoots_resolves {types : List (Name × Definition)} {l : List OpTypeDe
   induction l generalizing r with
   | nil => simp
   | cons e rest ih =>
-    simp only [setRoots] at h
-    split at h
-    · simp at h
-    · rename_i d hd
-      intro o ho
-      simp only [List.mem_cons] at ho
-      rcases ho with ho | ho
-      · subst ho; rw [hd]; rfl
-      · exact ih h o ho
+    obtain ⟨d, hd, r2, h2, _⟩ := setRoots_cons_ok h
+    intro o ho
+    simp only [List.mem_cons] at ho
+    rcases ho with ho | ho
+    · subst ho; rw [hd]; rfl
+    · exact ih h2 o ho
 
 theorem applySchemaDefs_resolves {st : LState} {l : List SchemaDef} {r r' : Roots} {acc acc' : List Directive}
     (h : applySchemaDefs st l r acc = .ok r' acc') : ∀ s ∈ l, ∀ o ∈ s.opTypes, (st.types.lookup o.type).isSome := by
@@ -121,6 +130,87 @@ theorem applySchemaDefs_resolves {st : LState} {l : List SchemaDef} {r r' : Root
       · exact ih h s hs
     · rename_i hne
       exact absurd h (hne _ _)
+
+/- ---------------- every root operation type is given at most once ---------------- -/
+
+/-- how many entry points of a list name the operation `o` -/
+def opCount (o : Bytes) (l : List OpTypeDef) : Nat := (l.filter (·.op == o)).length
+/-- 1 when the operation already has a root -/
+def rootSet (r : Roots) (o : Bytes) : Nat := if (rootOf r o).isSome then 1 else 0
+
+theorem opCount_append (o : Bytes) (a b : List OpTypeDef) : opCount o (a ++ b) = opCount o a + opCount o b := by
+  simp [opCount, List.filter_append]
+
+theorem rootSet_le (r : Roots) (o : Bytes) : rootSet r o ≤ 1 := by unfold rootSet; split <;> omega
+
+theorem setRoots_step_count {types : List (Name × Definition)} {e : OpTypeDef} {rest : List OpTypeDef} {r r' : Roots}
+    (h : setRoots types (e :: rest) r = .ok r') {o : Bytes} (ho : isRootOp o = true) :
+    ∃ r2, setRoots types rest r2 = .ok r' ∧ rootSet r o + opCount o (e :: rest) = rootSet r2 o + opCount o rest := by
+  obtain ⟨d, _, r2, h2, hnone, hstep⟩ := setRoots_cons_ok h
+  refine ⟨r2, h2, ?_⟩
+  by_cases heo : e.op = o
+  · subst heo
+    have h1 : rootOf r e.op = none := hnone ho
+    have h2' : rootOf r2 e.op = some d.name := by rw [hstep]; simp [ho]
+    simp [rootSet, h1, h2', opCount, List.filter]
+    omega
+  · have h1 : (e.op == o) = false := by simp [heo]
+    have h2' : (o == e.op) = false := by simp [Ne.symm heo]
+    have h3 : rootOf r2 o = rootOf r o := by rw [hstep]; simp [h2']
+    simp [rootSet, h3, opCount, List.filter, h1]
+
+theorem setRoots_once {types : List (Name × Definition)} {l : List OpTypeDef} {r r' : Roots}
+    (h : setRoots types l r = .ok r') {o : Bytes} (ho : isRootOp o = true) :
+    rootSet r o + opCount o l ≤ 1 ∧ (1 ≤ rootSet r o + opCount o l → rootSet r' o = 1) := by
+  induction l generalizing r with
+  | nil =>
+    simp only [setRoots, Except.ok.injEq] at h
+    subst h
+    have := rootSet_le r o
+    simp only [opCount, List.filter_nil, List.length_nil, Nat.add_zero]
+    omega
+  | cons e rest ih =>
+    obtain ⟨r2, h2, heq⟩ := setRoots_step_count h ho
+    rw [heq]
+    exact ih h2
+
+theorem applySchemaDefs_once {st : LState} {l : List SchemaDef} {r r' : Roots} {acc acc' : List Directive}
+    (h : applySchemaDefs st l r acc = .ok r' acc') {o : Bytes} (ho : isRootOp o = true) :
+    rootSet r o + opCount o (l.flatMap (·.opTypes)) ≤ 1 ∧
+    (1 ≤ rootSet r o + opCount o (l.flatMap (·.opTypes)) → rootSet r' o = 1) := by
+  induction l generalizing r acc with
+  | nil =>
+    simp only [applySchemaDefs, RootsResult.ok.injEq] at h
+    obtain ⟨h1, _⟩ := h
+    subst h1
+    have := rootSet_le r o
+    simp only [List.flatMap_nil, opCount, List.filter_nil, List.length_nil, Nat.add_zero]
+    omega
+  | cons sdef rest ih =>
+    simp only [applySchemaDefs] at h
+    split at h
+    · rename_i r1 acc1 h1
+      have hset : setRoots st.types sdef.opTypes r = .ok r1 := by
+        unfold applySchemaDef at h1
+        split at h1
+        · simp at h1
+        · rename_i r2 hr2
+          split at h1 <;> try (simp at h1)
+          obtain ⟨e1, _⟩ := h1
+          subst e1; exact hr2
+      have A := setRoots_once hset ho
+      have B := ih h
+      have := rootSet_le r1 o
+      simp only [List.flatMap_cons, opCount_append]
+      omega
+    · rename_i hne
+      exact absurd h (hne _ _)
+
+theorem noRoots_rootSet (o : Bytes) : rootSet noRoots o = 0 := by
+  simp [rootSet, rootOf, noRoots]
+
+theorem opCount_eq (o : Bytes) (l : List OpTypeDef) : ((l.map (·.op)).filter (· == o)).length = opCount o l := by
+  simp [opCount, List.filter_map, Function.comp_def]
 
 /-- kinds of extensions agree with their base (or with the first extension of that name) -/
 theorem foldExtensions_kinds {l : List Definition} {t r : List (Name × Definition)} (h : foldExtensions l t = .ok r) :
@@ -204,6 +294,21 @@ theorem buildState_ext_kinds {sd : SchemaDoc} {st : LState} (h : buildState sd =
         | some e0 => simp only [hx] at this ⊢; simp [this]
         | none => rfl
 
+/-- a document the loader accepts gives every operation a root type at most once (no hypothesis) -/
+theorem load_rootsOnce {sd : SchemaDoc} {s : Schema} (h : load sd = .ok s) : Spec.rootOperationTypesOnce sd = true := by
+  obtain ⟨st0, r0, d0, r1', d1', _, _, h0, h1, _, _, _⟩ := load_ok_inv h
+  simp only [Spec.rootOperationTypesOnce, List.all_cons, List.all_nil, Bool.and_true, Bool.and_eq_true,
+    decide_eq_true_eq, opCount_eq, List.flatMap_append, opCount_append]
+  have key : ∀ o, isRootOp o = true →
+      opCount o (sd.schema.flatMap (·.opTypes)) + opCount o (sd.schemaExt.flatMap (·.opTypes)) ≤ 1 := by
+    intro o ho
+    have A := applySchemaDefs_once h0 ho
+    have B := applySchemaDefs_once h1 ho
+    rw [noRoots_rootSet] at A
+    have := rootSet_le r0 o
+    omega
+  exact ⟨key opQuery (by decide), key opMutation (by decide), key opSubscription (by decide)⟩
+
 /-- the clauses of `Spec.WellFormed` that every document accepted by the loader satisfies -/
 structure SoundClauses (sd : SchemaDoc) : Prop where
   uniqueTypeNames : Spec.uniqueTypeNames sd = true
@@ -219,6 +324,8 @@ structure SoundClauses (sd : SchemaDoc) : Prop where
   singleSchemaDef : Spec.singleSchemaDef sd = true
   extensionKindsMatch : Spec.extensionKindsMatch sd = true
   enumValuesNotLiterals : Spec.enumValuesNotLiterals (.ofDoc sd) = true
+  enumValueNamesNotReserved : Spec.enumValueNamesNotReserved (.ofDoc sd) = true
+  rootOperationTypesOnce : Spec.rootOperationTypesOnce sd = true
 
 theorem load_sound {sd : SchemaDoc} {s : Schema} (h : load sd = .ok s)
     (hext : ∀ e ∈ sd.extensions, e.builtIn = false) : SoundClauses sd := by
@@ -230,7 +337,7 @@ theorem load_sound {sd : SchemaDoc} {s : Schema} (h : load sd = .ok s)
     fun d hd => spec_types_mem F.built hext hd
   have hD : ∀ d ∈ (Spec.TypeSystem.ofDoc sd).types, DefOK st0 d := fun d hd => F.defOK _ (hmem d hd)
   have hty := spec_typeIs_eq F.built hext
-  refine ⟨?_, ?_, ?_, ?_, ?_, ?_, ?_, ?_, ?_, ?_, ?_, ?_, ?_⟩
+  refine ⟨?_, ?_, ?_, ?_, ?_, ?_, ?_, ?_, ?_, ?_, ?_, ?_, ?_, ?_, ?_⟩
   · exact pairwiseDistinct_of_nodup (buildState_defs_nodup F.built)
   · simp only [Spec.uniqueFieldNames, List.all_eq_true]
     exact fun d hd => checkUniqueFields_pass (hD d hd).uniqueFields
@@ -285,5 +392,14 @@ theorem load_sound {sd : SchemaDoc} {s : Schema} (h : load sd = .ok s)
       intro v hv
       exact kindSpecific_enumNames (hD d hd).kindSpecific hk v hv
     · left; simp [hk]
+  · simp only [Spec.enumValueNamesNotReserved, List.all_eq_true, Bool.or_eq_true, Bool.not_eq_true']
+    intro d hd
+    by_cases hk : d.kind = .enum
+    · right
+      intro v hv
+      rw [reserved_eq]
+      exact kindSpecific_enumValueNames (hD d hd).kindSpecific hk v hv
+    · left; simp [hk]
+  · exact load_rootsOnce h
 
 end Gql.Load
